@@ -165,6 +165,26 @@ func c51(c *Ctx) {
 			}
 			c.Expect(nc == 1 && np == 1, nil, side.fn, side.what+"-both-maps", "expected one "+side.what+" loop over clusters and one over plugins")
 		}
+		// construction: a failing interceptor never yields a selector; every cluster the selector routes to is recorded in the
+		// map its references are taken from (so that the acquire above covers it)
+		c.Expect(c.ErrorsPropagate(build, "newConfigSelector", nil) >= 2, nil, build, "construction-error-sites", "fewer tested construction errors than on the reviewed tree")
+		nStop := 0
+		for _, a := range build.AnonFuncs {
+			for _, sp := range callsIn(a, Callee(xres, "configSelector.stop")) {
+				nStop++
+				c.MustFact(sp, "new-selector-stopped-only-when-construction-failed", NotNil(func(v ssa.Value) bool { return isErrorType(v.Type()) }))
+			}
+		}
+		c.Expect(nStop == 1, nil, build, "failed-construction-cleans-up", "expected the deferred clean-up of a partially built selector")
+		nRec := 0
+		for _, in := range instrsWhere(build, func(in ssa.Instruction) bool { _, ok := in.(*ssa.MapUpdate); return ok }) {
+			mu := in.(*ssa.MapUpdate)
+			if FieldLoad(fCl)(mu.Map) || FieldLoad(fPl)(mu.Map) {
+				nRec++
+				c.Expect(CallRes(Callee(xres, "xdsResolver.addOrGetActiveClusterInfo"), 0)(mu.Value), in, build, "recorded-info-is-the-active-entry", "the selector records something other than the resolver's active cluster entry")
+			}
+		}
+		c.Expect(nRec == 2, nil, build, "routed-clusters-recorded", "expected the weighted clusters and the plugin cluster to be recorded in the selector")
 		for _, in := range instrsWhere(f, func(in ssa.Instruction) bool {
 			return isCallTo(Callee(xres, "configSelector.sendNewServiceConfig"))(in) || isCallTo(ValueCall(AnyV))(in)
 		}) {
